@@ -85,6 +85,11 @@ structure Cfg where
   /-- `splitHostPortNumber(address)` succeeds (the port of the dialled address is a number); both
       paths evaluate it only inside their SASL branch, after the socket is open -/
   addrOk : Bool := true
+  /-- the dial has a time limit (`Dialer.Timeout` / `Dialer.Deadline` / a deadline on the caller's context;
+      a Transport always has its `DialTimeout`).  Nothing below looks at it: what is sent, in which order, and when the
+      dial fails do not depend on whether the caller asked for a time limit — only whether a silent broker can produce
+      `Env.ioerr` does (Props/C18 `connect_flows_run_under_the_time_limit`). -/
+  limit : Bool := true
   deriving DecidableEq, Repr
 
 structure State where
